@@ -164,13 +164,32 @@ impl IntoSqlBuilder for Multiplication {
     }
 }
 
+/// The SQL text of a member chain that reads a field is `(obj)->>'field'`.
+/// Prefix operators, subscripts and casts bind tighter than `->` / `->>`, so
+/// such a chain is parenthesised before one of them is applied to it.
+fn reads_field(member: &Member) -> bool {
+    member
+        .member
+        .iter()
+        .any(|m| matches!(m.node(), MemberPrime::MemberAccess { .. }))
+}
+
+fn unary_operand(member: &Member) -> Result<Box<dyn SqlBuilder>, ToSqlError> {
+    let builder = member.into_sql_builder()?;
+    if reads_field(member) {
+        Ok(Box::new(ParensBuilder { inner: builder }))
+    } else {
+        Ok(builder)
+    }
+}
+
 impl IntoSqlBuilder for Unary {
     fn into_sql_builder(&self) -> Result<Box<dyn SqlBuilder>, ToSqlError> {
         match self {
             Unary::Member(ast_node) => ast_node.into_sql_builder(),
             Unary::NotMember { nots, member } => {
                 let nots_builder = nots.into_sql_builder()?;
-                let member_builder = member.into_sql_builder()?;
+                let member_builder = unary_operand(member.node())?;
 
                 Ok(Box::new(UnaryOperationBuilder {
                     operator: nots_builder,
@@ -179,7 +198,7 @@ impl IntoSqlBuilder for Unary {
             }
             Unary::NegMember { negs, member } => {
                 let negs_builder = negs.into_sql_builder()?;
-                let member_builder = member.into_sql_builder()?;
+                let member_builder = unary_operand(member.node())?;
 
                 Ok(Box::new(UnaryOperationBuilder {
                     operator: negs_builder,
@@ -290,6 +309,8 @@ impl IntoSqlBuilder for Member {
         }
 
         let mut builder = primary_builder;
+        // the text built so far ends in a field access
+        let mut after_field = false;
 
         for (i, member) in self.member.iter().enumerate() {
             match member.node() {
@@ -298,7 +319,8 @@ impl IntoSqlBuilder for Member {
                         object: builder,
                         field: ident.node().into_sql_builder()?,
                         extract_text: i == (self.member.len() - 1),
-                    })
+                    });
+                    after_field = true;
                 }
                 MemberPrime::Call { call } => {
                     // the parser stores call arguments last-first
@@ -312,12 +334,19 @@ impl IntoSqlBuilder for Member {
                             .map(|a| a.node().into_sql_builder())
                             .collect::<ToSqlResult<Vec<_>>>()?,
                     });
+                    after_field = false;
                 }
                 MemberPrime::ArrayAccess { access } => {
+                    // a subscript binds tighter than `->`: index the value read,
+                    // not the field name
+                    if after_field {
+                        builder = Box::new(ParensBuilder { inner: builder });
+                    }
                     builder = Box::new(ArrayAccessBuilder {
                         array: builder,
                         member: access.node().into_sql_builder()?,
-                    })
+                    });
+                    after_field = false;
                 }
                 MemberPrime::Empty => break,
             }
